@@ -998,15 +998,18 @@ class Interp:
         return VList(self.comprehension(node, env))
 
     def _filter_comprehension(self, node, env):
-        """[t for t in <symbolic sequence> if cond(t)]: the result is a fresh list characterised completely by
-        quantified axioms (an order-preserving, complete selection of the elements that satisfy the condition).
-        Trusted encoding of the comprehension; returns None when the shape of the comprehension is another one."""
+        """[E(t) for t in <symbolic sequence> if cond(t)] (E pure, the target a name or a tuple pattern): the result is a
+        fresh list characterised completely by quantified axioms -- an order-preserving, complete selection of the
+        source elements that satisfy the condition, each mapped through E.  Trusted encoding of the comprehension;
+        returns None when the shape of the comprehension is another one.  The two index functions (result index ->
+        source index, source index -> result index) are exposed as ghost functions `ghost_filt_src`, `ghost_filt_dst`."""
         from .loops import iter_view
         from . import lib
+        from .values import shape_of, VBuiltin
         if len(node.generators) != 1:
             return None
         g = node.generators[0]
-        if g.is_async or not (isinstance(g.target, ast.Name) and isinstance(node.elt, ast.Name) and node.elt.id == g.target.id):
+        if g.is_async or not g.ifs:
             return None
         itv = self.need(self.eval(g.iter, env))
         try:
@@ -1018,36 +1021,49 @@ class Interp:
             return None
         ctx = self.ctx
         n = view.length
-        r = lib.fresh_list(self, view.shape, "filt")
-        f = z3.Function(ctx.fresh_name("filt_src"), z3.IntSort(), z3.IntSort())
-        gi = z3.Function(ctx.fresh_name("filt_dst"), z3.IntSort(), z3.IntSort())
         sp = self.sub(True)
 
-        def cond_on(elem):
+        def bind(elem):
             e2 = Env(env)
-            e2.assign(g.target.id, elem)
+            sp.assign(g.target, elem, e2)
+            return e2
+
+        def cond_on(elem):
+            e2 = bind(elem)
             cs = [truthy(sp.eval(c, e2)) for c in g.ifs]
             return z3.And(cs + [z3.BoolVal(True)])
 
-        def same(a, b):
-            return ops.eq(a, b)
+        def elt_of(elem):
+            return sp.eval(node.elt, bind(elem))
         i = z3.Int(ctx.fresh_name("i_filt"))
         j = z3.Int(ctx.fresh_name("j_filt"))
+        try:
+            sample = elt_of(view.get(i))
+            rshape = shape_of(sample)
+        except (Unsupported, ValueError):
+            return None
+        identity = isinstance(g.target, ast.Name) and isinstance(node.elt, ast.Name) and node.elt.id == g.target.id
+        r = lib.fresh_list(self, rshape, "filt")
+        f = z3.Function(ctx.fresh_name("filt_src"), z3.IntSort(), z3.IntSort())
+        gi = z3.Function(ctx.fresh_name("filt_dst"), z3.IntSort(), z3.IntSort())
         # bounds of the axioms' quantifiers, for the bounded refuter
         i2 = z3.Int(ctx.fresh_name("i_filt"))
         QRANGES[i.decl().name()] = (z3.IntVal(0), r.length)
         QRANGES[i2.decl().name()] = (z3.IntVal(0), r.length - 1)
         QRANGES[j.decl().name()] = (z3.IntVal(0), n)
         ctx.assume(z3.And(r.length >= 0, r.length <= n), "filter-comprehension:length")
-        ctx.assume(z3.ForAll([i], z3.Implies(z3.And(i >= 0, i < r.length),
-                                              z3.And(f(i) >= 0, f(i) < n, same(ops.list_get(r, i), view.get(f(i))),
-                                                     cond_on(ops.list_get(r, i))))),
+        body = [f(i) >= 0, f(i) < n, ops.eq(ops.list_get(r, i), elt_of(view.get(f(i)))), cond_on(view.get(f(i)))]
+        if identity:
+            body.append(cond_on(ops.list_get(r, i)))
+        ctx.assume(z3.ForAll([i], z3.Implies(z3.And(i >= 0, i < r.length), z3.And(body))),
                    "filter-comprehension:elements-are-selected-source-elements")
         ctx.assume(z3.ForAll([i2], z3.Implies(z3.And(i2 >= 0, i2 < r.length - 1), f(i2) < f(i2 + 1))),
                    "filter-comprehension:order-preserved")
         ctx.assume(z3.ForAll([j], z3.Implies(z3.And(j >= 0, j < n, cond_on(view.get(j))),
                                               z3.And(gi(j) >= 0, gi(j) < r.length, f(gi(j)) == j))),
                    "filter-comprehension:complete")
+        self.ghost["filt_src"] = VBuiltin("ghost:filt_src", lambda it, a, k, nn: VInt(f(as_int(a[0]))))
+        self.ghost["filt_dst"] = VBuiltin("ghost:filt_dst", lambda it, a, k, nn: VInt(gi(as_int(a[0]))))
         if view.consume:
             view.consume(n)
         return r
